@@ -47,7 +47,13 @@ theorem rel_issue {w : WM} {iss : List Handle} {s : WS} (hr : Rel ⟨w, iss⟩ s
   refine
   { len := by show (s.ents ++ [x]).length = (iss ++ [h]).length; simp [hlen]
     ents := ?_, deps := hr.deps, lockDepth := hr.lockDepth, nthreads := hr.nthreads, buffers := ?_, marked := ?_,
-    markedLt := ?_, markedNodup := hr.markedNodup }
+    markedLt := ?_, markedNodup := hr.markedNodup
+    markedOld := by
+      intro o ho h' hh
+      have hh' : (iss ++ [h])[o]? = some h' := hh
+      have hlt : o < iss.length := hlen ▸ hr.markedLt o ho
+      rw [List.getElem?_append_left hlt] at hh'
+      exact hr.markedOld o ho h' hh' }
   · intro o h' ho
     have ho' : (iss ++ [h])[o]? = some h' := ho
     by_cases hlt : o < iss.length
@@ -335,6 +341,16 @@ theorem createLocked_core {w : WM} {iss : List Handle} {s : WS} (hi : Inv ⟨w, 
         (w.nextEntityId + 1) (PoolExt.refl _)
     have hr3 := rel_push hr2 t (.create h m sh) (.create s.ents.length m ssh)
       ⟨by rw [hr.len]; exact ordOf_snoc_self iss h, rfl, hv⟩
+      (by
+        intro e he o ho hh
+        have he' : h = e := by simpa [crH] using he
+        subst he'
+        have hh' : (iss ++ [h])[o]? = some h := hh
+        have hlt : o < iss.length := by
+          have := hr.markedLt o ho
+          rw [hr.len] at this; exact this
+        rw [List.getElem?_append_left hlt] at hh'
+        exact hnew (List.mem_of_getElem? hh'))
     rw [hw']
     exact hr3
   · rw [hw']; exact (isLocked_iff _).mpr hl
